@@ -22,7 +22,7 @@ patched scratch tree (`VERIF_REPO_ROOT`, equivalent to `git -C /repo apply` + ch
 touching /repo while background sweeps read it).  `history` notes where a check was strengthened because the
 change would have been (or was) missed by its first version.
 
-Nine rounds, 279 changes (two per property and round; tags A/B ... I/J for all twenty properties, K/L for the twelve with the most earlier misses, M/N for the other eight, O/P for ten properties again, Q/R for the other ten - one agent delivered a single change).  Round 1 asked for a change that
+Ten rounds, 294 changes (two per property and round; tags A/B ... I/J for all twenty properties, K/L for the twelve with the most earlier misses, M/N for the other eight, O/P for ten properties again, Q/R for the other ten and S/T for eight properties - two agents delivered a single change).  Round 1 asked for a change that
 "needs something specific to manifest"; round 2 for regressions away from the obvious function (shared helpers,
 constructor normalisation, cached state, build-then-modify, serialize-then-reuse, two cooperating edits); round 3
 excluded those patterns and asked for overlooked clauses of the statement, alternative entry paths, shape / dtype /
@@ -30,9 +30,9 @@ magnitude corners and cross-module interactions; round 4 for well-motivated main
 consequence (API modernisation, numerical-stability / performance tweaks, over-correcting fixes,
 generalisations); round 5 for edits whose side effect lands in a code path shared with nothing else that is
 exercised, leaving every reported attribute self-consistent.  First-evaluation result of the registered quick check of the
-seeded property: round 1: 39 of 40 caught (C20-A missed), round 2: 24 of 40, round 3: 22 of 40, round 4: 28 of 40, round 5: 23 of 40, round 6: 13 of 24, round 7: 11 of 16, round 8: 16 of 20, round 9: 15 of 19.  Every miss was
+seeded property: round 1: 39 of 40 caught (C20-A missed), round 2: 24 of 40, round 3: 22 of 40, round 4: 28 of 40, round 5: 23 of 40, round 6: 13 of 24, round 7: 11 of 16, round 8: 16 of 20, round 9: 15 of 19, round 10: 7 of 15.  Every miss was
 turned into a strengthening of the workload or the oracle (never a special case for the seeded input), after which
-271 of the 279 are caught (C01-K, C05-M, C11-J, C11-L, C14-L, C15-K, C15-O and C19-J are left missed, each with its reason in its row); the strengthenings are what section 11 and the corrections log describe (construction routes,
+286 of the 294 are caught (C01-K, C05-M, C11-J, C11-L, C14-L, C15-K, C15-O and C19-J are left missed, each with its reason in its row); the strengthenings are what section 11 and the corrections log describe (construction routes,
 second rebuild, parse history independence, argument spellings, frozen layers, focus models for rare conjunctions,
 geometry sweeps with a static batch, persistence monitors, stressed reference, printed quantizer form, ...).  Two
 seeds also exposed weaknesses of the *findings* machinery: C03-C was masked by a too coarse known-finding signature
